@@ -37,22 +37,24 @@ func zzClaim(blockNum, blockPos uint64) *Claim {
 	return c
 }
 
-// zzBlocks builds n blocks numbered first.. with 0..1 bridge and 0..1 claim each (arbitrary values); deposit counts continue
-// from *dc.
-func zzBlocks(first uint64, n int, dc *uint32, tag string) []sync.Block {
+// zzBlocks builds n blocks numbered first.. ; the events of block i are given by digit i of layout in base 6:
+// digit = number of bridges (0..2) + 3 * (has a claim). All field values are arbitrary; deposit counts continue from *dc.
+func zzBlocks(first uint64, n int, dc *uint32, tag string, layout int) []sync.Block {
 	out := make([]sync.Block, 0, n)
 	for i := 0; i < n; i++ {
 		num := first + uint64(i)
+		d := layout % 6
+		layout /= 6
 		blk := sync.Block{Num: num, Hash: zzverif.Hash("bh" + tag)}
 		pos := uint64(0)
-		if zzverif.Bool("hasBridge" + tag) {
+		for j := 0; j < d%3; j++ {
 			b, _ := zzBridge(num, pos, *dc, 2)
 			zzverif.Assume(b.Hash() != common.Hash{})
 			blk.Events = append(blk.Events, Event{Bridge: b})
 			*dc++
 			pos++
 		}
-		if zzverif.Bool("hasClaim" + tag) {
+		if d >= 3 {
 			blk.Events = append(blk.Events, Event{Claim: zzClaim(num, pos)})
 		}
 		out = append(out, blk)
@@ -176,7 +178,7 @@ func ZZVerif_C04_BridgeReorg() {
 	pa := zzNewProcessor(pathA)
 	pb := zzNewProcessor(zzverif.TempDB("b"))
 	dc := uint32(0)
-	blocks := zzBlocks(1, n, &dc, "")
+	blocks := zzBlocks(1, n, &dc, "", zzverif.Param("LAYOUT"))
 	dcBelow := uint32(0)
 	for _, blk := range blocks {
 		zzverif.Assert("A: block processed", pa.ProcessBlock(ctx, blk) == nil)
@@ -210,7 +212,7 @@ func ZZVerif_C04_BridgeReorg() {
 		first = 1
 	}
 	dcFork := dcBelow
-	fork := zzBlocks(first, f, &dcFork, "F")
+	fork := zzBlocks(first, f, &dcFork, "F", zzverif.Param("FLAYOUT"))
 	for _, blk := range fork {
 		cp := sync.Block{Num: blk.Num, Hash: blk.Hash}
 		for _, e := range blk.Events {
